@@ -465,6 +465,6 @@ def cosim(ctx, native):
             s.append("%d%s" % (t, a))
         obs = native["dev"].ask("5 sched " + " ".join(s))
         if obs != predict(s):
-            raise RuntimeError("schedule %s: native %s vs per-thread model %s" % (s, obs, predict(s)))
+            raise NativeViolation("5 sched " + " ".join(s), obs, predict(s))
         n += 1
     return n
